@@ -251,7 +251,11 @@ func (self *linkedPairs) Pop() {
 func (self *linkedPairs) Unset(i int) {
 	if self.index != nil {
 		p := self.At(i)
-		delete(self.index, p.hash)
+		// the index points at the first pair with this hash: drop the entry only
+		// if that is the pair being removed, an earlier duplicate stays reachable
+		if j, ok := self.index[p.hash]; ok && j == i {
+			delete(self.index, p.hash)
+		}
 	}
 	self.set(i, Pair{})
 }
